@@ -89,15 +89,30 @@ impl Partition {
         }
 
         let segments = self.filter_segments_by_offsets(start_offset, end_offset);
-        match segments.len() {
-            0 => Ok(Vec::new()),
+        let mut messages = match segments.len() {
+            0 => Vec::new(),
             1 => {
                 segments[0]
                     .get_messages_by_offset(start_offset, count)
-                    .await
+                    .await?
             }
-            _ => Self::get_messages_from_segments(segments, start_offset, count).await,
-        }
+            _ => Self::get_messages_from_segments(segments, start_offset, count).await?,
+        };
+
+        // With no-wait confirmation a batch can still be on its way to the log file while later
+        // messages are already readable from the write buffer or the next segment. Only the run
+        // that starts at the requested offset and has no gap is returned.
+        let mut expected_offset = start_offset;
+        let contiguous = messages
+            .iter()
+            .take_while(|message| {
+                let in_sequence = message.offset == expected_offset;
+                expected_offset += 1;
+                in_sequence
+            })
+            .count();
+        messages.truncate(contiguous);
+        Ok(messages)
     }
 
     // Retrieves the first messages (up to a specified count).
